@@ -773,6 +773,165 @@ theorem fInvMutex_init (seed : σ) (progs : List Nat) : FInvMutex (finit seed pr
     rw [hidle j t ht] at hp
     rcases hp with hp | ⟨w, hp⟩ <;> cases hp
 
+/-! #### a serial fine-grained schedule does what the one-step system does -/
+
+/-- Nobody is inside a draw and the lock is free. -/
+structure Quiet (st : FState σ ρ) : Prop where
+  free : st.lock = none
+  idle : ∀ t ∈ st.threads, t.pc = .idle
+
+theorem quiet_init (seed : σ) (progs : List Nat) : Quiet (finit seed progs : FState σ ρ) := by
+  refine ⟨rfl, ?_⟩
+  intro t ht
+  simp only [finit, List.mem_map] at ht
+  obtain ⟨n, _, rfl⟩ := ht
+  rfl
+
+theorem quiet_set (st : FState σ ρ) (i : Nat) (t' : FThread σ) (h : Quiet st) (ht' : t'.pc = .idle) (s : σ) (lg : List (Nat × ρ)) :
+    Quiet ({ shared := s, lock := none, threads := st.threads.set i t', log := lg } : FState σ ρ) := by
+  refine ⟨rfl, ?_⟩
+  intro t hm
+  rcases List.mem_or_eq_of_mem_set hm with hm | rfl
+  · exact h.idle t hm
+  · exact ht'
+
+theorem fblock_own (g : Gen σ ρ) (st : FState σ ρ) (i : Nat) (h : Quiet st) :
+    (fexec .threadLocal g st [i, i]).abs = step .threadLocal g st.abs i ∧ Quiet (fexec .threadLocal g st [i, i]) := by
+  cases ht : st.threads[i]? with
+  | none =>
+    have e : fstep .threadLocal g st i = st := by unfold fstep; simp [ht]
+    have e2 : step .threadLocal g st.abs i = st.abs := by unfold step; simp [FState.abs, ht]
+    simp only [fexec_cons, fexec_nil, e, e2]; exact ⟨trivial, h⟩
+  | some t =>
+    have hpc : t.pc = .idle := h.idle t (List.mem_of_getElem? ht)
+    have hlt : i < st.threads.length := by
+      rcases List.getElem?_eq_some_iff.mp ht with ⟨hl, _⟩; exact hl
+    have hta : st.abs.threads[i]? = some t.abs := by simp [FState.abs, ht]
+    by_cases h0 : t.todo = 0
+    · have e : fstep .threadLocal g st i = st := by unfold fstep; simp [ht, hpc, h0]
+      have e2 : step .threadLocal g st.abs i = st.abs := by
+        unfold step; rw [hta]; simp [Discipline.mode, FThread.abs, h0]
+      simp only [fexec_cons, fexec_nil, e, e2]; exact ⟨trivial, h⟩
+    · have e1 : fstep .threadLocal g st i
+          = { st with threads := st.threads.set i { t with pc := .loaded t.cell } } := by
+        unfold fstep; simp [ht, hpc, h0]
+      have e2 : fstep .threadLocal g { st with threads := st.threads.set i { t with pc := .loaded t.cell } } i
+          = { st with
+              threads := st.threads.set i { t with pc := .idle, todo := t.todo - 1, cell := g.next t.cell }
+              log := (i, g.out (g.next t.cell)) :: st.log } := by
+        unfold fstep; simp [hlt, List.set_set]
+      simp only [fexec_cons, fexec_nil, e1, e2]
+      constructor
+      · exact abs_commit_own .threadLocal rfl g st _ i t _ ht h0 rfl rfl rfl rfl
+      · have := quiet_set st i { t with pc := .idle, todo := t.todo - 1, cell := g.next t.cell } h rfl st.shared ((i, g.out (g.next t.cell)) :: st.log)
+        rw [← h.free] at this
+        exact this
+
+theorem fblock_cas (g : Gen σ ρ) (st : FState σ ρ) (i : Nat) (h : Quiet st) :
+    (fexec .atomicRmw g st [i, i]).abs = step .atomicRmw g st.abs i ∧ Quiet (fexec .atomicRmw g st [i, i]) := by
+  cases ht : st.threads[i]? with
+  | none =>
+    have e : fstep .atomicRmw g st i = st := by unfold fstep; simp [ht]
+    have e2 : step .atomicRmw g st.abs i = st.abs := by unfold step; simp [FState.abs, ht]
+    simp only [fexec_cons, fexec_nil, e, e2]; exact ⟨trivial, h⟩
+  | some t =>
+    have hpc : t.pc = .idle := h.idle t (List.mem_of_getElem? ht)
+    have hlt : i < st.threads.length := by
+      rcases List.getElem?_eq_some_iff.mp ht with ⟨hl, _⟩; exact hl
+    have hta : st.abs.threads[i]? = some t.abs := by simp [FState.abs, ht]
+    by_cases h0 : t.todo = 0
+    · have e : fstep .atomicRmw g st i = st := by unfold fstep; simp [ht, hpc, h0]
+      have e2 : step .atomicRmw g st.abs i = st.abs := by
+        unfold step; rw [hta]; simp [Discipline.mode, FThread.abs, h0]
+      simp only [fexec_cons, fexec_nil, e, e2]; exact ⟨trivial, h⟩
+    · have e1 : fstep .atomicRmw g st i
+          = { st with threads := st.threads.set i { t with pc := .loaded st.shared } } := by
+        unfold fstep; simp [ht, hpc, h0]
+      have e2 : fstep .atomicRmw g { st with threads := st.threads.set i { t with pc := .loaded st.shared } } i
+          = { st with
+              shared := g.next st.shared
+              threads := st.threads.set i { t with pc := .idle, todo := t.todo - 1 }
+              log := (i, g.out (g.next st.shared)) :: st.log } := by
+        unfold fstep; simp [hlt, List.set_set]
+      simp only [fexec_cons, fexec_nil, e1, e2]
+      constructor
+      · exact abs_commit_shared .atomicRmw rfl g st _ i t _ ht h0 rfl rfl rfl rfl
+      · have := quiet_set st i { t with pc := .idle, todo := t.todo - 1 } h rfl (g.next st.shared) ((i, g.out (g.next st.shared)) :: st.log)
+        rw [← h.free] at this
+        exact this
+
+theorem fblock_mutex (g : Gen σ ρ) (st : FState σ ρ) (i : Nat) (h : Quiet st) :
+    (fexec .mutex g st [i, i, i, i]).abs = step .mutex g st.abs i ∧ Quiet (fexec .mutex g st [i, i, i, i]) := by
+  cases ht : st.threads[i]? with
+  | none =>
+    have e : fstep .mutex g st i = st := by unfold fstep; simp [ht]
+    have e2 : step .mutex g st.abs i = st.abs := by unfold step; simp [FState.abs, ht]
+    simp only [fexec_cons, fexec_nil, e, e2]; exact ⟨trivial, h⟩
+  | some t =>
+    have hpc : t.pc = .idle := h.idle t (List.mem_of_getElem? ht)
+    have hlt : i < st.threads.length := by
+      rcases List.getElem?_eq_some_iff.mp ht with ⟨hl, _⟩; exact hl
+    have hta : st.abs.threads[i]? = some t.abs := by simp [FState.abs, ht]
+    by_cases h0 : t.todo = 0
+    · have e : fstep .mutex g st i = st := by unfold fstep; simp [ht, hpc, h0]
+      have e2 : step .mutex g st.abs i = st.abs := by
+        unfold step; rw [hta]; simp [Discipline.mode, FThread.abs, h0]
+      simp only [fexec_cons, fexec_nil, e, e2]; exact ⟨trivial, h⟩
+    · have e1 : fstep .mutex g st i
+          = { st with lock := some i, threads := st.threads.set i { t with pc := .locked } } := by
+        unfold fstep; simp [ht, hpc, h0, h.free]
+      have e2 : fstep .mutex g { st with lock := some i, threads := st.threads.set i { t with pc := .locked } } i
+          = { st with lock := some i, threads := st.threads.set i { t with pc := .loaded st.shared } } := by
+        unfold fstep; simp [hlt, List.set_set]
+      have e3 : fstep .mutex g { st with lock := some i, threads := st.threads.set i { t with pc := .loaded st.shared } } i
+          = { st with
+              lock := some i
+              shared := g.next st.shared
+              threads := st.threads.set i { t with pc := .stored, todo := t.todo - 1 }
+              log := (i, g.out (g.next st.shared)) :: st.log } := by
+        unfold fstep; simp [hlt, List.set_set]
+      have e4 : fstep .mutex g { st with
+              lock := some i
+              shared := g.next st.shared
+              threads := st.threads.set i { t with pc := .stored, todo := t.todo - 1 }
+              log := (i, g.out (g.next st.shared)) :: st.log } i
+          = { shared := g.next st.shared
+              lock := none
+              threads := st.threads.set i { t with pc := .idle, todo := t.todo - 1 }
+              log := (i, g.out (g.next st.shared)) :: st.log } := by
+        unfold fstep; simp [hlt, List.set_set]
+      simp only [fexec_cons, fexec_nil, e1, e2, e3, e4]
+      constructor
+      · exact abs_commit_shared .mutex rfl g st _ i t _ ht h0 rfl rfl rfl rfl
+      · exact quiet_set st i { t with pc := .idle, todo := t.todo - 1 } h rfl (g.next st.shared) ((i, g.out (g.next st.shared)) :: st.log)
+
+/-- A serial fine-grained schedule does exactly what the one-step system does. -/
+theorem fexec_fexpand (D : Discipline) (hD : D.isSafe = true) (g : Gen σ ρ) (st : FState σ ρ) (h : Quiet st)
+    (order : List Nat) : (fexec D g st (fexpand D order)).abs = exec D g st.abs order := by
+  induction order generalizing st with
+  | nil => rfl
+  | cons i is ih =>
+    have happ : ∀ (a b : List Nat), fexec D g st (a ++ b) = fexec D g (fexec D g st a) b := by
+      intro a b; simp [fexec, List.foldl_append]
+    have hex : fexpand D (i :: is) = List.replicate (fineSteps D) i ++ fexpand D is := by
+      simp [fexpand]
+    rw [hex, happ, exec_cons]
+    cases D with
+    | threadLocal =>
+      obtain ⟨e, q⟩ := fblock_own g st i h
+      have : List.replicate (fineSteps .threadLocal) i = [i, i] := rfl
+      rw [this, ih _ q, e]
+    | atomicRmw =>
+      obtain ⟨e, q⟩ := fblock_cas g st i h
+      have : List.replicate (fineSteps .atomicRmw) i = [i, i] := rfl
+      rw [this, ih _ q, e]
+    | mutex =>
+      obtain ⟨e, q⟩ := fblock_mutex g st i h
+      have : List.replicate (fineSteps .mutex) i = [i, i, i, i] := rfl
+      rw [this, ih _ q, e]
+    | racy => cases hD
+    | unknown => cases hD
+
 end Fine
 
 end Rlib.TreapConc
